@@ -14,18 +14,11 @@ Definition is_pident (a : fnarg) : bool :=
 
 Definition all_ok (l : list fnarg) : bool := forallb is_pident l.
 
-(** [Ident::new(&format!("{}_", ident), span)] panics on a raw identifier ([r#type_] is not one) *)
-Definition is_raw (s : string) : bool := starts_with "r#" s.
-
-(** ** Stage 1: [fix_ident_conflicts] *)
-Definition fix_conflict (fn_name : string) (a : fnarg) : result fnarg :=
+(** ** Stage 1: [simplify_pat_idents] — binding modes and sub-patterns are dropped *)
+Definition simplify (a : fnarg) : fnarg :=
   match a with
-  | ArgTyped attrs (PIdent r m n sub) ty =>
-      if String.eqb n fn_name then
-        if is_raw n then Panic "fn_params.rs:45 Ident::new on a raw identifier"
-        else Ok (ArgTyped attrs (PIdent r m (n +++ "_") sub) ty)
-      else Ok a
-  | _ => Ok a
+  | ArgTyped attrs (PIdent _ _ n _) ty => ArgTyped attrs (PIdent false false n []) ty
+  | _ => a
   end.
 
 Fixpoint map_res {A B} (f : A -> result B) (l : list A) : result (list B) :=
@@ -96,11 +89,41 @@ Fixpoint autogen (l : list fnarg) (index : nat) (taken : list string) : result (
       end
   end.
 
+(** ** Final pass: [make_idents_unique] *)
+Definition is_raw (s : string) : bool := starts_with "r#" s.
+
+(** [format_ident!("{}_", ident)]: a raw identifier loses its [r#] *)
+Definition suffix (s : string) : string := (if is_raw s then drop_str 2 s else s) +++ "_".
+
+(** [while taken.contains(ident) { ident = suffix ident }], on explicit fuel
+    (|taken| + 1 rounds suffice: FnParamsProofs.uniq_name_total) *)
+Fixpoint uniq_name (fuel : nat) (name : string) (taken : list string) : option string :=
+  if str_mem name taken then
+    match fuel with
+    | O => None
+    | S k => uniq_name k (suffix name) taken
+    end
+  else Some name.
+
+Fixpoint make_unique (l : list fnarg) (taken : list string) : result (list fnarg) :=
+  match l with
+  | [] => Ok []
+  | ArgTyped attrs (PIdent r m n sub) ty :: rest =>
+      match uniq_name (S (List.length taken)) n taken with
+      | None => OutOfDomain "make_idents_unique fuel"
+      | Some n' =>
+          let* rest' := make_unique rest (n' :: taken) in
+          Ok (ArgTyped attrs (PIdent r m n' sub) ty :: rest')
+      end
+  | a :: rest => let* rest' := make_unique rest taken in Ok (a :: rest')
+  end.
+
 (** ** [fix_fn_param_idents] *)
 Definition fix_fn_param_idents (fn_name : string) (l : list fnarg) : result (list fnarg) :=
-  let* l1 := map_res (fix_conflict fn_name) l in
-  if all_ok l1 then Ok l1
-  else
-    let l2 := map lift l1 in
-    if all_ok l2 then Ok l2
-    else autogen l2 0 (plain_names l2).
+  let l1 := map simplify l in
+  let* l3 :=
+    if all_ok l1 then Ok l1
+    else
+      let l2 := map lift l1 in
+      if all_ok l2 then Ok l2 else autogen l2 0 (fn_name :: plain_names l2) in
+  make_unique l3 [fn_name].
